@@ -203,25 +203,24 @@ func fixStdlib(interp *Interpreter) {
 	}
 
 	if p = interp.binPkg["log"]; p != nil {
-		l := log.New(stderr, "", log.LstdFlags)
+		// The default logger is made by the New function of the script, to be of
+		// its Logger type: in restricted mode, the one which panics instead of exit.
+		newLogger := p["New"]
+		if interp.unrestricted || !newLogger.IsValid() {
+			newLogger = reflect.ValueOf(log.New)
+		}
+		l := newLogger.Call([]reflect.Value{reflect.ValueOf(stderr), reflect.ValueOf(""), reflect.ValueOf(log.LstdFlags)})[0]
+		p["Default"] = reflect.MakeFunc(reflect.FuncOf(nil, []reflect.Type{l.Type()}, false), func([]reflect.Value) []reflect.Value {
+			return []reflect.Value{l}
+		})
 		// Restrict Fatal symbols to panic instead of exit.
-		p["Fatal"] = reflect.ValueOf(l.Panic)
-		p["Fatalf"] = reflect.ValueOf(l.Panicf)
-		p["Fatalln"] = reflect.ValueOf(l.Panicln)
+		p["Fatal"] = l.MethodByName("Panic")
+		p["Fatalf"] = l.MethodByName("Panicf")
+		p["Fatalln"] = l.MethodByName("Panicln")
 
-		p["Flags"] = reflect.ValueOf(l.Flags)
-		p["Output"] = reflect.ValueOf(l.Output)
-		p["Panic"] = reflect.ValueOf(l.Panic)
-		p["Panicf"] = reflect.ValueOf(l.Panicf)
-		p["Panicln"] = reflect.ValueOf(l.Panicln)
-		p["Prefix"] = reflect.ValueOf(l.Prefix)
-		p["Print"] = reflect.ValueOf(l.Print)
-		p["Printf"] = reflect.ValueOf(l.Printf)
-		p["Println"] = reflect.ValueOf(l.Println)
-		p["SetFlags"] = reflect.ValueOf(l.SetFlags)
-		p["SetOutput"] = reflect.ValueOf(l.SetOutput)
-		p["SetPrefix"] = reflect.ValueOf(l.SetPrefix)
-		p["Writer"] = reflect.ValueOf(l.Writer)
+		for _, name := range []string{"Flags", "Output", "Panic", "Panicf", "Panicln", "Prefix", "Print", "Printf", "Println", "SetFlags", "SetOutput", "SetPrefix", "Writer"} {
+			p[name] = l.MethodByName(name)
+		}
 
 		// Update mapTypes to virtualized symbols as well.
 		interp.mapTypes[p["Print"]] = interp.mapTypes[reflect.ValueOf(log.Print)]
